@@ -1016,10 +1016,139 @@ fn history_level(sink: &mut Sink, rng: &mut Rng, n_random: usize) {
     }
 }
 
+// ---------------------------------------------------------------- the Python route: create(fields=F, projection=P)
+/// sudachipy.Dictionary.create(mode, fields=F, projection=P): the tokenizer loads F plus what the projection P reads
+/// (python/src/dictionary.rs).  Requested = F and the projected surface, Morpheme.surface().  Each session is compared with
+/// the session that differs only in fields=None (all fields), run in the same interpreter: the projected surface and every
+/// field of F must be equal for every morpheme; ranges must be equal whenever F holds surface, POS and normalized form (what
+/// the path-rewrite plugins of the test configuration read) -- when they differ without that, nothing is compared.
+const PY_FIELDS: &[&str] = &["surface", "pos", "normalized_form", "dictionary_form", "reading_form", "word_structure", "split_a", "split_b", "synonym_group_id"];
+const PY_PROJECTIONS: &[Option<&str>] = &[None, Some("surface"), Some("normalized"), Some("reading"), Some("dictionary"), Some("dictionary_and_surface"), Some("normalized_and_surface"), Some("normalized_nouns")];
+const PY_TEXTS: &[&str] = &["東京都に行った", "京都東京都にいっていく", "特急はくたかで高輪ゲートウェイ駅", "すだちを１２３円で"];
+fn py_compare(s: &Value, got: &Value, full: &Value) -> Option<String> {
+    let fields: Vec<&str> = s["fields"].as_array().map(|a| a.iter().filter_map(|x| x.as_str()).collect()).unwrap_or_default();
+    let has = |n: &str| fields.iter().any(|f| *f == n);
+    let ops = s["ops"].as_array().cloned().unwrap_or_default();
+    for (k, op) in ops.iter().enumerate() {
+        let (g, f) = (&got[k], &full[k]);
+        let what = format!("create(mode={}, fields={}, projection={}).tokenize({})", s["mode"], s["fields"], s["projection"], op["text"]);
+        if f["ok"] != json!(true) {
+            continue;
+        }
+        if g["ok"] != json!(true) {
+            return Some(format!("{} fails ({}); with fields=None it succeeds", what, g["error"]));
+        }
+        let (gm, fm) = (g["morphemes"].as_array().cloned().unwrap_or_default(), f["morphemes"].as_array().cloned().unwrap_or_default());
+        let ranges = |v: &[Value]| -> Vec<(i64, i64)> { v.iter().map(|m| (m["begin"].as_i64().unwrap_or(-1), m["end"].as_i64().unwrap_or(-1))).collect() };
+        if ranges(&gm) != ranges(&fm) {
+            if has("surface") && has("pos") && has("normalized_form") {
+                return Some(format!("{}: ranges {:?}, with fields=None {:?}", what, ranges(&gm), ranges(&fm)));
+            }
+            continue;
+        }
+        for (x, y) in gm.iter().zip(fm.iter()) {
+            let mut keys: Vec<&str> = vec!["surface", "raw_surface", "slice_ok"];
+            if has("pos") {
+                keys.push("pos");
+                keys.push("pos_id");
+            }
+            for (f, k) in [("normalized_form", "normalized_form"), ("dictionary_form", "dictionary_form"), ("reading_form", "reading_form"), ("synonym_group_id", "synonym_group_ids")] {
+                if has(f) {
+                    keys.push(k);
+                }
+            }
+            for key in keys {
+                if x[key] != y[key] {
+                    let shown = |v: &[Value]| -> Vec<Value> { v.iter().map(|m| m[key].clone()).collect() };
+                    return Some(format!("{}: Morpheme.{} of the morphemes {}, with fields=None {}", what, if key == "surface" { "surface() (the projected form)".to_string() } else { key.to_string() }, json!(shown(&gm)), json!(shown(&fm))));
+                }
+            }
+        }
+    }
+    None
+}
+fn run_py_sessions(args: &Args, sessions: &[Value]) -> Result<Vec<Value>, String> {
+    let pypkg = std::env::var("VERIF_PYPKG").unwrap_or_default();
+    let root = std::env::var("VERIF_ROOT").unwrap_or_else(|_| ".".into());
+    if pypkg.is_empty() || !std::path::Path::new(&pypkg).join("sudachipy/sudachipy.so").exists() {
+        return Err("skipped".into());
+    }
+    let res = format!("{}/python/tests/resources", repo());
+    std::fs::create_dir_all(&args.work).map_err(|e| e.to_string())?;
+    let sp = args.work.join("c11_sessions.json");
+    let op = args.work.join("c11_py_out.json");
+    std::fs::write(&sp, serde_json::to_vec(sessions).unwrap()).map_err(|e| e.to_string())?;
+    let _ = std::fs::remove_file(&op);
+    let st = std::process::Command::new("timeout")
+        .args(["-k", "10", "600", "python3"])
+        .arg(format!("{}/pyharness/run_py.py", root))
+        .arg(format!("{}/sudachi.json", res))
+        .arg(&res)
+        .arg(&sp)
+        .arg(&op)
+        .env("PYTHONPATH", &pypkg)
+        .env("PYTHONDONTWRITEBYTECODE", "1")
+        .output()
+        .map_err(|e| format!("cannot start python3: {}", e))?;
+    let py: Option<Value> = std::fs::read_to_string(&op).ok().and_then(|s| serde_json::from_str(&s).ok());
+    match py {
+        Some(v) if st.status.success() => Ok(v["results"].as_array().cloned().unwrap_or_default()),
+        _ => Err(format!("the interpreter session failed: status {:?}: {}", st.status.code(), String::from_utf8_lossy(&st.stderr).chars().take(600).collect::<String>())),
+    }
+}
+fn py_session(mode: &str, fields: Option<&[&str]>, proj: Option<&str>, texts: &[&str]) -> Value {
+    json!({"mode": mode, "fields": fields, "projection": proj, "ops": texts.iter().map(|t| json!({"op": "tokenize", "text": t, "mode": null, "out": false})).collect::<Vec<_>>()})
+}
+fn python_level(sink: &mut Sink, rng: &mut Rng, args: &Args, n_random: usize) {
+    // directed, whatever the seed: small F x every P x modes C and A
+    let small: Vec<Vec<&str>> = vec![vec![], vec!["pos"], vec!["surface"], vec!["pos", "surface"], vec!["normalized_form"], vec!["reading_form", "pos"], vec!["dictionary_form"], vec!["synonym_group_id"], vec!["split_a", "pos"], vec!["surface", "pos", "normalized_form"]];
+    let mut todo: Vec<(String, Vec<&str>, Option<&str>, Vec<&str>)> = vec![];
+    for p in PY_PROJECTIONS {
+        for m in ["C", "A"] {
+            for f in &small {
+                todo.push((m.to_string(), f.clone(), *p, PY_TEXTS.to_vec()));
+            }
+        }
+    }
+    let vocab = ["東京都", "京都", "に", "行った", "いく", "特急はくたか", "高輪ゲートウェイ駅", "すだち", "１２３", "円", "アイアイウ", "。"];
+    for _ in 0..n_random {
+        let f: Vec<&str> = PY_FIELDS.iter().filter(|_| rng.chance(1, 3)).cloned().collect();
+        let np = 1 + rng.below(4) as usize;
+        let t: String = (0..np).map(|_| *rng.pick(&vocab)).collect();
+        let t: &'static str = Box::leak(t.into_boxed_str());
+        todo.push((rng.pick(&["A", "B", "C"]).to_string(), f, *rng.pick(PY_PROJECTIONS), vec![t]));
+    }
+    let mut sessions: Vec<Value> = vec![];
+    for (m, f, p, t) in &todo {
+        sessions.push(py_session(m, Some(&f[..]), *p, t));
+        sessions.push(py_session(m, None, *p, t));
+    }
+    match run_py_sessions(args, &sessions) {
+        Ok(results) => {
+            for k in 0..todo.len() {
+                let s = &sessions[2 * k];
+                let id = sink.case_rust_only(json!({"kind": "c11-py", "session": s}), true);
+                sink.tag("python_create_fields_projection");
+                if !s["projection"].is_null() {
+                    sink.tag(&format!("python_projection_{}", s["projection"].as_str().unwrap_or("")));
+                }
+                if let Some(b) = py_compare(s, &results[2 * k], &results[2 * k + 1]) {
+                    sink.fail(id, &b, "");
+                }
+            }
+        }
+        Err(e) if e == "skipped" => sink.tag("python_skipped_no_module"),
+        Err(e) => {
+            let id = sink.case_rust_only(json!({"kind": "c11-py", "session": sessions.first()}), false);
+            sink.fail(id, &e, "");
+        }
+    }
+}
+
 pub fn run(args: &Args) {
     let mut sink = Sink::new("C11", &args.out, &["Model.Codec", "Model.CodecIO", "Model.CodecCheck"], args.seed, &args.tier);
     sink.shard_size = 12;
-    sink.rule("(a) words of generated dictionaries: a system dictionary (also re-labelled as the format without synonym ids) or a system dictionary with TWO user dictionaries on top, the second with references from user words to user words (strings across the 127/128 prefix boundary, astral characters, forms empty / equal / different, arrays of 0/1/2/63/64/65/127 ids incl. directed lexicons with these lengths in every array field, own and foreign dictionary forms) x ALL 1024 requested subsets for some words and 40 sampled subsets (always incl. {}, {SURFACE}, {DIC_FORM_WORD_ID}, {NORMALIZED_FORM}, {READING_FORM}, each split alone, all) for the others: raw WordInfoData of LexiconSet::get_word_info_subset(normalize s) vs model, requested accessors vs full load; (b) analyses of texts over the shipped system dictionary with user2.csv and user1.csv compiled on top as dictionaries 1 and 2, with/without path-rewrite plugins x random subset x initial mode x mode x both orders of set_mode/set_subset vs the full-field analysis, and the tokenizer's resulting subset vs model; (c) sequences of 4..10 operations (set_mode, set_subset, analyse + collect_results) on two long-lived tokenizers sharing two MorphemeLists, every analysis vs a fresh full-field analysis in the same mode, the subset each list reports after a collection vs model; (d) MorphemeList::empty -> lookup(query, subset) -> split_into(A / B) vs the lexicon read with all fields; (e) split_into of the morphemes of an analysis (directed subsets x texts, and random ones) into target lists with a history (filled before by tokenizers with narrower / wider subsets, by lookup, by earlier splits, cleared or not) vs the same split of a fresh full-field analysis into a fresh list, on ranges, word ids, every requested field and the subset the target reports; every case non-trivial except sequences with fewer than two analyses; distinct by generated Coq term");
+    sink.rule("(a) words of generated dictionaries: a system dictionary (also re-labelled as the format without synonym ids) or a system dictionary with TWO user dictionaries on top, the second with references from user words to user words (strings across the 127/128 prefix boundary, astral characters, forms empty / equal / different, arrays of 0/1/2/63/64/65/127 ids incl. directed lexicons with these lengths in every array field, own and foreign dictionary forms) x ALL 1024 requested subsets for some words and 40 sampled subsets (always incl. {}, {SURFACE}, {DIC_FORM_WORD_ID}, {NORMALIZED_FORM}, {READING_FORM}, each split alone, all) for the others: raw WordInfoData of LexiconSet::get_word_info_subset(normalize s) vs model, requested accessors vs full load; (b) analyses of texts over the shipped system dictionary with user2.csv and user1.csv compiled on top as dictionaries 1 and 2, with/without path-rewrite plugins x random subset x initial mode x mode x both orders of set_mode/set_subset vs the full-field analysis, and the tokenizer's resulting subset vs model; (c) sequences of 4..10 operations (set_mode, set_subset, analyse + collect_results) on two long-lived tokenizers sharing two MorphemeLists, every analysis vs a fresh full-field analysis in the same mode, the subset each list reports after a collection vs model; (d) MorphemeList::empty -> lookup(query, subset) -> split_into(A / B) vs the lexicon read with all fields; (e) split_into of the morphemes of an analysis (directed subsets x texts, and random ones) into target lists with a history (filled before by tokenizers with narrower / wider subsets, by lookup, by earlier splits, cleared or not) vs the same split of a fresh full-field analysis into a fresh list, on ranges, word ids, every requested field and the subset the target reports; (f) sudachipy sessions create(mode, fields=F, projection=P) for small F x every P x modes C / A (directed) and random F, P, texts, in the module built from the working tree: Morpheme.surface() (the projected form) and every field of F vs the session with fields=None; every case non-trivial except sequences with fewer than two analyses; distinct by generated Coq term");
     let mut rng = Rng::new(args.seed);
     if let Some(p) = &args.replay {
         let v: Value = serde_json::from_str(&std::fs::read_to_string(p).unwrap()).unwrap();
@@ -1036,6 +1165,19 @@ pub fn run(args: &Args) {
             let dict = shipped_stack(false).unwrap();
             let (_, bad) = lookup_route_case(&dict, case["query"].as_str().unwrap(), case["subset"].as_u64().unwrap() as u32, true);
             println!("verdict: {:?}", bad);
+        } else if case["kind"] == "c11-py" {
+            let s = case["session"].clone();
+            let mut full = s.clone();
+            full["fields"] = Value::Null;
+            match run_py_sessions(args, &[s.clone(), full]) {
+                Ok(r) => {
+                    println!("session            : {}", s);
+                    println!("with the fields    : {}", r[0]);
+                    println!("with fields=None   : {}", r[1]);
+                    println!("verdict: {:?}", py_compare(&s, &r[0], &r[1]));
+                }
+                Err(e) => println!("python: {}", e),
+            }
         } else if case["kind"] == "c11-history" {
             let dict = shipped_stack(case["rewrite"].as_bool().unwrap()).unwrap();
             let (_, _, bad) = history_case(&dict, case["text"].as_str().unwrap(), case["subset"].as_u64().unwrap() as u32, true);
@@ -1085,5 +1227,6 @@ pub fn run(args: &Args) {
     sequence_level(&mut sink, &mut rng, args.n(300, 4000));
     lookup_level(&mut sink, &mut rng, args.n(120, 1500));
     history_level(&mut sink, &mut rng, args.n(20, 400));
+    python_level(&mut sink, &mut rng, args, args.n(40, 600));
     sink.finish();
 }
